@@ -26,6 +26,8 @@ CONSTANTS
   Depth = 0
   AttBound = 3
   ViewKeep = {}
+  AckAll = TRUE
+  Weights <- mcWeights
 INVARIANTS InvOK AckedStaysAcked AttemptsBounded OneLivePerName
 PROPERTIES StepProp NoLoss OrderKept LeaseKept
 VIEW View
